@@ -360,6 +360,10 @@ def relabel(pairs, offset, times=1):
 
 
 def split_lanes(pairs, cfg):
+    """lanes of one library: 'lane_splits' = ascending cut positions (k positions -> k+1 lanes, empty lanes allowed)"""
+    if cfg.get('lane_splits'):
+        cuts = [0] + [max(0, min(len(pairs), c)) for c in cfg['lane_splits']] + [len(pairs)]
+        return [pairs[cuts[i]:cuts[i + 1]] for i in range(len(cuts) - 1)]
     if cfg.get('lanes', 1) < 2:
         return [pairs]
     at = max(0, min(len(pairs), cfg.get('lane_split', len(pairs) // 2)))
@@ -554,7 +558,7 @@ def run_event(tid, grp, entry, names, pairs, acc, cfg, obs, extra=None):
     e = {'ev': 'run', 'tid': tid, 'grp': grp, 'entry': entry, 'mates': cfg['mates'], 'hasRej': cfg['hasRej'],
          'percell': cfg['percell'], 'maxpairs': cfg['maxpairs'], 'gz': bool(cfg.get('gz', True)), 'fh': int(cfg.get('fh', 500)), 'prune': int(cfg.get('prune') or 0),
          'prior': cfg.get('prior') or '', 'prior_k': int(cfg.get('prior_k') or 0), 'lanes': int(cfg.get('lanes', 1)),
-         'lane_split': int(cfg.get('lane_split', 0)), 'stale_dir': bool(cfg.get('stale_dir')),
+         'lane_split': int(cfg.get('lane_split', 0)), 'lane_splits': [int(x) for x in cfg.get('lane_splits') or []], 'stale_dir': bool(cfg.get('stale_dir')),
          'eol': cfg.get('eol') or 'lf', 'nofinalnl': bool(cfg.get('nofinalnl')), 'trailing_blank': bool(cfg.get('trailing_blank')), 'nofile': int(cfg.get('nofile') or 0),
          'cli_auto': bool(cfg.get('cli_auto')), 'cli_reverse': bool(cfg.get('cli_reverse')), 'cli_extra_lib': bool(cfg.get('cli_extra_lib')),
          'strategies': names, 'lib': cfg['lib'], 'N': len(pairs),
@@ -834,6 +838,32 @@ def main():
                 if len(sel) == 1:
                     cfg['cli_auto'], use = True, sel
             rec.group(loader, use, pairs, [cfg], workdir, entry='cli')
+
+        # (6b) demux.py -n with several lanes: the cut-off is reached exactly at the end of a lane, inside the first lane, inside a
+        #      later lane, at the end of the last-but-one of three lanes, beyond the library (the lane loop of demux.py 474-498
+        #      computes the remainder; pairs behind the cut-off must be in no sink and the log must equal the files)
+        shapes = [('end_of_lane1', lambda a, b, n: ([a], a)), ('inside_lane1', lambda a, b, n: ([a], max(1, a - 2))),
+                  ('inside_lane2', lambda a, b, n: ([a], a + 1)), ('3lanes_end_of_lane1', lambda a, b, n: ([a, b], a)),
+                  ('3lanes_end_of_lane2', lambda a, b, n: ([a, b], b)), ('3lanes_inside_lane2', lambda a, b, n: ([a, b], a + 1)),
+                  ('3lanes_middle_lane_empty', lambda a, b, n: ([a, a], a)), ('first_lane_empty', lambda a, b, n: ([0, a], a)),
+                  ('cutoff_1', lambda a, b, n: ([a, b], 1)), ('cutoff_is_library_size', lambda a, b, n: ([a, b], n)),
+                  ('cutoff_beyond', lambda a, b, n: ([a], n + 3)), ('end_of_lane1_single_pair_lanes', lambda a, b, n: ([1, 2], 1))]
+        order = shapes[:5] if quick else shapes + shapes
+        for j, (label, f) in enumerate(order):
+            name = rng.choice(['CS2C8U6', 'NLAIII384C8U3', 'scCHIC384C8U3', 'MSPJIC8U3', 'DamID2'])
+            mates = 1 if j % 5 == 4 else 2
+            strategies = loader.select([name])
+            n = rng.randint(9, 24)
+            a = rng.randint(3, n - 5)
+            b = rng.randint(a + 2, n - 1)
+            splits, cut = f(a, b, n)
+            pairs = make_library(rng, loader, strategies, n, mates, focus=0,
+                                 content_classes=['exact', 'exact', 'unknown', 'mm1', 'empty', 'n_umi'])
+            cfg = {'lib': 'LANES', 'mates': mates, 'hasRej': j % 4 != 3, 'percell': j % 2 == 1, 'maxpairs': cut,
+                   'lanes': len(splits) + 1, 'lane_splits': splits, 'nofinalnl': j % 3 == 0}
+            rec.group(loader, [name], pairs, [cfg], workdir, entry='cli', extra={'shape': label})
+            if not quick:
+                rec.group(loader, [name], pairs, [dict(cfg)], workdir, entry='api', extra={'shape': label})
     finally:
         rec.f.close()
         shutil.rmtree(workdir, True)
@@ -853,7 +883,7 @@ def replay(rec, case_path, workdir):
              for p, c in zip(ev['inp'], ev['classes'])]
     cfgs = [{'lib': e['lib'], 'mates': e['mates'], 'gz': e.get('gz', True), 'fh': e.get('fh', 500), 'prune': e.get('prune', 0),
              'prior': e.get('prior') or None, 'prior_k': e.get('prior_k', 0), 'lanes': e.get('lanes', 1),
-             'lane_split': e.get('lane_split', 0), 'stale_dir': e.get('stale_dir', False), 'eol': e.get('eol', 'lf'),
+             'lane_split': e.get('lane_split', 0), 'lane_splits': e.get('lane_splits') or [], 'stale_dir': e.get('stale_dir', False), 'eol': e.get('eol', 'lf'),
              'nofinalnl': e.get('nofinalnl', False), 'trailing_blank': e.get('trailing_blank', False), 'cli_auto': e.get('cli_auto', False),
              'cli_reverse': e.get('cli_reverse', False), 'cli_extra_lib': e.get('cli_extra_lib', False), 'nofile': e.get('nofile', 0), 'hasRej': e['hasRej'],
              'percell': e['percell'], 'maxpairs': e['maxpairs']} for e in evs]
